@@ -24,6 +24,7 @@ import (
 	"io"
 	"math/rand"
 	"os"
+	"runtime"
 	"sort"
 	"strings"
 	"sync"
@@ -36,11 +37,96 @@ import (
 var out *bufio.Writer
 var caseID int
 
-const watchdog = 5 * time.Second
+// A healthy Close / Next / exit handler returns within microseconds, so the watchdog costs
+// nothing when generous.  It is wall-clock time: on an oversubscribed machine a process can
+// be kept off the CPU for seconds, so one expiry is not a verdict (see runCase).
+var watchdog = 30 * time.Second
+
+type caseOut struct{ op, args, res, feats string }
+
+var capture *caseOut // while a scenario is being attempted, emit stores instead of printing
 
 func emit(op, args, res, feats string) {
+	if capture != nil {
+		*capture = caseOut{op, args, res, feats}
+		return
+	}
 	caseID++
 	fmt.Fprintf(out, "%d %s %s | %s | %s\n", caseID, op, args, res, feats)
+}
+
+var lastHangSig string
+
+// noteHang is called when a watchdog expires: all goroutine stacks go to stderr (checks/c15.py
+// attaches them to the failure) and a signature of the blocked library goroutines is kept.
+func noteHang(what string) {
+	buf := make([]byte, 4<<20)
+	buf = buf[:runtime.Stack(buf, true)]
+	var sig []string
+	for _, g := range strings.Split(string(buf), "\n\n") {
+		lines := strings.Split(g, "\n")
+		if len(lines) < 2 || !strings.HasPrefix(lines[0], "goroutine ") {
+			continue
+		}
+		state := lines[0]
+		if i := strings.Index(state, "["); i >= 0 {
+			state = strings.TrimSuffix(strings.SplitN(state[i+1:], ",", 2)[0], "]:")
+		}
+		for _, l := range lines[1:] {
+			if strings.HasPrefix(l, "github.com/segmentio/kafka-go.") && !strings.Contains(l, "Verif") && !strings.Contains(l, "verifCoord") {
+				fn := strings.TrimPrefix(l, "github.com/segmentio/kafka-go.")
+				if i := strings.LastIndex(fn, "("); i > 0 {
+					fn = fn[:i]
+				}
+				sig = append(sig, state+"@"+fn)
+				break
+			}
+		}
+	}
+	sort.Strings(sig)
+	lastHangSig = strings.ReplaceAll(strings.Join(sig, ";"), " ", "_")
+	fmt.Fprintf(os.Stderr, "=== HANG %s\nsignature: %s\n%s\n=== END HANG\n", what, lastHangSig, buf)
+}
+
+// runCase runs one scenario from its own seed.  A scenario that hits the watchdog is re-run
+// once, alone, with the same seed: hanging again is reported as HANG (a violation); hanging only
+// the first time is reported with the feature hang-once-under-load (a note in the evidence).
+func runCase(r *rand.Rand, f func(rr *rand.Rand)) {
+	seed := r.Int63()
+	runSeeded(seed, f)
+}
+
+func runSeeded(seed int64, f func(rr *rand.Rand)) {
+	var a caseOut
+	lastHangSig = ""
+	capture = &a
+	f(rand.New(rand.NewSource(seed)))
+	capture = nil
+	tag := func(c caseOut, extra string) {
+		fs := c.feats
+		if fs != "" {
+			fs += ","
+		}
+		emit(c.op, c.args, c.res, fs+"seed="+fmt.Sprintf("%x", seed)+extra)
+	}
+	if !strings.Contains(a.res, "HANG") {
+		tag(a, "")
+		return
+	}
+	sig1 := lastHangSig
+	fmt.Fprintf(os.Stderr, "=== RETRY %s seed=%x after %s\n", a.op, seed, a.res[:min(len(a.res), 120)])
+	time.Sleep(200 * time.Millisecond)
+	var b caseOut
+	lastHangSig = ""
+	capture = &b
+	f(rand.New(rand.NewSource(seed)))
+	capture = nil
+	if strings.Contains(b.res, "HANG") {
+		b.res += " [twice; blocked: " + sig1 + " / " + lastHangSig + "]"
+		tag(b, ",hang-twice")
+		return
+	}
+	tag(b, ",hang-once-under-load")
 }
 
 func hx(n int) string { return fmt.Sprintf("%x", n) }
@@ -75,6 +161,10 @@ func stateStr(st kafka.VerifGenState, ret bool) string {
 }
 
 func runGenCase(r *rand.Rand) {
+	runCase(r, genCase)
+}
+
+func genCase(r *rand.Rand) {
 	g := kafka.VerifNewGeneration(7, "grp", "m1")
 	type ufn struct {
 		exit     chan struct{}
@@ -91,6 +181,7 @@ func runGenCase(r *rand.Rand) {
 	res := func() string {
 		defer func() {
 			if h, ok := recover().(hang); ok {
+				noteHang("gen: " + h.what)
 				obs = append(obs, "HANG:"+h.what)
 			}
 		}()
@@ -1205,7 +1296,9 @@ func (d *driver) closeSafe() bool {
 		return false
 	}
 	// at a coordinator gate: the call must have arrived
-	return d.g.peek(func(x *call) bool { return x.api == "connect" || x.api == "join" || x.api == "sync" || x.api == "fetch" || x.api == "leave" }) != nil
+	return d.g.peek(func(x *call) bool {
+		return x.api == "connect" || x.api == "join" || x.api == "sync" || x.api == "fetch" || x.api == "leave"
+	}) != nil
 }
 
 func (d *driver) leaveFull() string {
@@ -1216,6 +1309,10 @@ func (d *driver) leaveFull() string {
 }
 
 func runE2E(r *rand.Rand, forced string) {
+	runCase(r, func(rr *rand.Rand) { e2eCase(rr, forced) })
+}
+
+func e2eCase(r *rand.Rand, forced string) {
 	d := &driver{r: r, g: &gate{}, pc: "connect", held: -1, byWire: map[int32]int{},
 		nextPending: map[int]chan nextRes{}, nextCancel: map[int]context.CancelFunc{}, feats: map[string]bool{}}
 	d.nwatch = []int{0, 0, 1, 2}[r.Intn(4)]
@@ -1258,6 +1355,7 @@ func runE2E(r *rand.Rand, forced string) {
 					panic(x)
 				}
 				hung = h.what
+				noteHang("e2e: " + h.what)
 			}
 		}()
 		if forced == "f5" {
@@ -1465,7 +1563,9 @@ func runE2E(r *rand.Rand, forced string) {
 }
 
 func (d *driver) closeSafeGateOnly() bool {
-	return d.g.peek(func(x *call) bool { return x.api == "connect" || x.api == "join" || x.api == "sync" || x.api == "fetch" || x.api == "leave" }) != nil
+	return d.g.peek(func(x *call) bool {
+		return x.api == "connect" || x.api == "join" || x.api == "sync" || x.api == "fetch" || x.api == "leave"
+	}) != nil
 }
 
 // =============================================================================== main
@@ -1473,11 +1573,30 @@ func (d *driver) closeSafeGateOnly() bool {
 func main() {
 	seed := flag.Int64("seed", 1, "PRNG seed")
 	n := flag.Int("n", 300, "number of generated cases")
-	only := flag.String("only", "", "gen|e2e|wire|soak|f5")
+	only := flag.String("only", "", "gen|e2e|wire|soak|f5|joinerr")
+	caseSeed := flag.String("caseseed", "", "with -only gen|e2e|soak: run just the scenario with this seed (hex, the seed= feature of a case)")
+	reps := flag.Int("reps", 1, "with -caseseed: how many times")
+	wd := flag.Duration("watchdog", watchdog, "watchdog per blocking wait")
 	flag.Parse()
+	watchdog = *wd
 	out = bufio.NewWriter(os.Stdout)
 	defer out.Flush()
 	r := rand.New(rand.NewSource(*seed))
+	if *caseSeed != "" {
+		var cs int64
+		fmt.Sscanf(*caseSeed, "%x", &cs)
+		for i := 0; i < *reps; i++ {
+			switch *only {
+			case "gen":
+				runSeeded(cs, genCase)
+			case "e2e":
+				runSeeded(cs, func(rr *rand.Rand) { e2eCase(rr, "") })
+			case "soak":
+				runSeeded(cs, soakCase)
+			}
+		}
+		return
+	}
 	if *only == "" || *only == "f5" {
 		runE2E(r, "f5")
 	}
